@@ -6,6 +6,7 @@ import (
 	"encoding/hex"
 	"fmt"
 	"hash/fnv"
+	"net"
 	"reflect"
 	"sort"
 	"strings"
@@ -15,9 +16,10 @@ import (
 )
 
 type walker struct {
-	sb      strings.Builder
-	visited map[uintptr]bool
-	depth   int
+	sb       strings.Builder
+	visited  map[uintptr]bool
+	depth    int
+	skipBase bool
 }
 
 // Layer returns the signature of one layer.
@@ -84,6 +86,7 @@ func safeFlow(f func() gopacket.Flow) (s string) {
 }
 
 var timeType = reflect.TypeOf(time.Time{})
+var ipType = reflect.TypeOf(net.IP{})
 var layerIface = reflect.TypeOf((*gopacket.Layer)(nil)).Elem()
 
 func (w *walker) value(v reflect.Value) {
@@ -136,6 +139,12 @@ func (w *walker) value(v reflect.Value) {
 			if f.PkgPath != "" && f.Anonymous && f.Type.Kind() != reflect.Struct {
 				continue
 			}
+			if w.skipBase && (f.Name == "ActualLength" || f.Name == "OptionAlignment") {
+				continue // decode-side bookkeeping / serialisation hints, not wire fields
+			}
+			if w.skipBase && (f.Name == "BaseLayer" || f.Name == "Contents" || f.Name == "Payload") && f.Type.String() != "string" {
+				continue
+			}
 			fmt.Fprintf(&w.sb, "%s:", f.Name)
 			w.value(v.Field(i))
 			w.sb.WriteByte(' ')
@@ -150,6 +159,11 @@ func (w *walker) value(v reflect.Value) {
 			b := make([]byte, v.Len())
 			for i := range b {
 				b[i] = byte(v.Index(i).Uint())
+			}
+			if w.skipBase && v.Type() == ipType && len(b) == 16 {
+				if b4 := net.IP(b).To4(); b4 != nil {
+					b = b4
+				}
 			}
 			w.sb.WriteString("x" + short(b))
 			return
@@ -187,6 +201,19 @@ func (w *walker) value(v reflect.Value) {
 	default:
 		fmt.Fprintf(&w.sb, "<%s>", v.Kind())
 	}
+}
+
+// Fields returns a signature of the exported fields of a layer value only — no contents/payload, no flows, and
+// without the embedded BaseLayer — so that a constructed layer and its decoded counterpart can be compared.
+// IP addresses are normalised to their 4-byte form where possible.
+func Fields(l any) string {
+	w := &walker{visited: map[uintptr]bool{}, skipBase: true}
+	v := reflect.ValueOf(l)
+	for v.Kind() == reflect.Ptr && !v.IsNil() {
+		v = v.Elem() // a constructed value and a decoded pointer are the same layer
+	}
+	w.value(v)
+	return w.sb.String()
 }
 
 // short renders a byte string: hex when small, length+FNV-64 when large (a packet of n layers would otherwise
